@@ -353,73 +353,106 @@ def _tlc_trace(ck, trace_path, deviations, props, tag, timeout=150, **cfgkw):
     return verdict, res
 
 
-def validate_traces(ck, outcomes, deviations, tag, props=None, max_rejections=6, chunk=80, chunk_timeout=150, **cfgkw):
-    """Validate the normalised traces of all outcomes, in chunks with a timeout each (one pathological trace cannot
-    eat the budget). Returns (n_accepted, rejections, tlc_results); a rejection is {id, index, event, rule, before}.
-    The rule is found by switching rule tags off. Chunks that time out are halved once; what still times out is
-    listed in ck.trace_timeouts (the caller decides whether that is a tool error)."""
+def validate_traces(ck, outcomes, deviations, tag, props=None, max_rejections=6, chunk=80, chunk_timeout=150,
+                    parallel=4, **cfgkw):
+    """Validate the normalised traces of all outcomes, in chunks (run `parallel` at a time) with a timeout each, so
+    that one pathological trace cannot eat the budget. Returns (n_accepted, rejections, tlc_results); a rejection
+    is {id, index, event, rule, before}. The rule is found by switching rule tags off. A chunk that times out is
+    halved; a single trace that still times out is listed in ck.trace_timeouts (see finish_validation)."""
+    from concurrent.futures import ThreadPoolExecutor
+    import threading
     props = list(props or ALL_RULES)
     per = [(o["id"], normalise(o)) for o in outcomes if "panic" not in o]
-    rejections, results = [], []
-    accepted = 0
     classified = {}
+    lock = threading.Lock()
+    state = {"rej": 0}
     if not hasattr(ck, "trace_timeouts"):
         ck.trace_timeouts = []
-    queue = [per[i:i + chunk] for i in range(0, len(per), chunk)]
-    while queue:
-        todo = queue.pop(0)
-        while todo:
-            if len(rejections) >= max_rejections:
-                rest = len(todo) + sum(len(q) for q in queue)
-                ck.notes.append(f"trace validation stopped after {len(rejections)} rejections; {rest} traces not validated")
-                return accepted, rejections, results
-            path = os.path.join(ck.dir, f"trace_{tag}.ndjson")
-            rows, owner = [], []
-            for sid, evs in todo:
-                for e in evs:
-                    rows.append(e)
-                    owner.append(sid)
-            vlib.write_ndjson(path, rows)
-            try:
-                (verdict, idx), res = _tlc_trace(ck, path, deviations, props, tag, timeout=chunk_timeout, **cfgkw)
-            except TraceTimeout:
-                if len(todo) > 1:
-                    h = len(todo) // 2
-                    queue[0:0] = [todo[:h], todo[h:]]
-                else:
-                    ck.trace_timeouts.append(todo[0][0])
-                break
-            results.append(res)
-            if verdict == "accepted":
-                accepted += len(todo)
-                break
-            sid = owner[idx - 1]
-            pos = [k for k, (s_, _) in enumerate(todo) if s_ == sid][0]
-            evs = todo[pos][1]
-            local = idx - 1 - sum(len(e) for _, e in todo[:pos])
-            accepted += pos
-            # which rule rejected it: the single tag whose removal lets this scenario pass further
-            rule = "unexplained"
-            klass = (evs[local]["ev"], evs[local].get("inst"), evs[local].get("t"), evs[local].get("disp"),
-                     evs[local].get("why"))
-            if klass in classified:
-                rule = classified[klass]
-            else:
-                single = os.path.join(ck.dir, f"trace_{tag}_one.ndjson")
-                vlib.write_ndjson(single, evs)
-                for tagname in props:
+
+    def work(args):
+        ci, first = args
+        acc, rejs, ress, touts, skipped = 0, [], [], [], 0
+        queue = [first]
+        n = 0
+        while queue:
+            todo = queue.pop(0)
+            while todo:
+                with lock:
+                    if state["rej"] >= max_rejections:
+                        skipped += len(todo) + sum(len(q) for q in queue)
+                        return acc, rejs, ress, touts, skipped
+                n += 1
+                t = f"{tag}_{ci}"
+                path = os.path.join(ck.dir, f"trace_{t}.ndjson")
+                rows, owner = [], []
+                for sid, evs in todo:
+                    for e in evs:
+                        rows.append(e)
+                        owner.append(sid)
+                vlib.write_ndjson(path, rows)
+                try:
+                    (verdict, idx), res = _tlc_trace(ck, path, deviations, props, t, timeout=chunk_timeout, **cfgkw)
+                except TraceTimeout:
+                    if len(todo) > 1:
+                        h = len(todo) // 2
+                        queue[0:0] = [todo[:h], todo[h:]]
+                    else:
+                        touts.append(todo[0][0])
+                    break
+                finally:
                     try:
-                        (v2, i2), _ = _tlc_trace(ck, single, deviations, [p for p in props if p != tagname], tag + "_r",
-                                                 timeout=60, **cfgkw)
-                    except TraceTimeout:
-                        continue
-                    if v2 == "accepted" or (i2 is not None and i2 - 1 > local):
-                        rule = tagname
-                        break
-                classified[klass] = rule
-            rejections.append({"id": sid, "index": local, "event": evs[local], "rule": rule,
-                               "before": evs[max(0, local - 6):local]})
-            todo = todo[pos + 1:]
+                        os.remove(path)
+                    except OSError:
+                        pass
+                ress.append(res)
+                if verdict == "accepted":
+                    acc += len(todo)
+                    break
+                sid = owner[idx - 1]
+                pos = [k for k, (s_, _) in enumerate(todo) if s_ == sid][0]
+                evs = todo[pos][1]
+                local = idx - 1 - sum(len(e) for _, e in todo[:pos])
+                acc += pos
+                # which rule rejected it: the single tag whose removal lets this scenario pass further
+                rule = "unexplained"
+                klass = (evs[local]["ev"], evs[local].get("inst"), evs[local].get("t"), evs[local].get("disp"),
+                         evs[local].get("why"))
+                with lock:
+                    known = classified.get(klass)
+                if known is not None:
+                    rule = known
+                else:
+                    single = os.path.join(ck.dir, f"trace_{t}_one.ndjson")
+                    vlib.write_ndjson(single, evs)
+                    for tagname in props:
+                        try:
+                            (v2, i2), _ = _tlc_trace(ck, single, deviations, [p for p in props if p != tagname], t + "_r",
+                                                     timeout=60, **cfgkw)
+                        except TraceTimeout:
+                            continue
+                        if v2 == "accepted" or (i2 is not None and i2 - 1 > local):
+                            rule = tagname
+                            break
+                    with lock:
+                        classified[klass] = rule
+                with lock:
+                    state["rej"] += 1
+                rejs.append({"id": sid, "index": local, "event": evs[local], "rule": rule,
+                             "before": evs[max(0, local - 6):local]})
+                todo = todo[pos + 1:]
+        return acc, rejs, ress, touts, skipped
+
+    chunks = [(i, per[k:k + chunk]) for i, k in enumerate(range(0, len(per), chunk))]
+    accepted, rejections, results, skipped = 0, [], [], 0
+    with ThreadPoolExecutor(max_workers=max(1, parallel)) as ex:
+        for acc, rejs, ress, touts, sk in ex.map(work, chunks):
+            accepted += acc
+            rejections += rejs
+            results += ress
+            ck.trace_timeouts += touts
+            skipped += sk
+    if skipped:
+        ck.notes.append(f"trace validation stopped after {len(rejections)} rejections; {skipped} traces not validated")
     return accepted, rejections, results
 
 
